@@ -1199,6 +1199,21 @@ class Engine(object):
       if table_id not in self.tables:
         self._update_table_model(table, None)
 
+    # A formula naming a table that didn't exist when it was evaluated holds a NameError, and has
+    # no dependency through which the new table could reach it: recompute the formulas that
+    # mention the id of a table that has just appeared.
+    new_table_ids = [t for t in self.tables if t not in old_tables]
+    if new_table_ids and old_tables:
+      mentions = re.compile(r'\b(?:%s)\b' % '|'.join(re.escape(t) for t in new_table_ids))
+      for table_id, table in self.tables.items():
+        if table_id in new_table_ids or table_id not in self.schema:
+          continue
+        for col_id, col_info in self.schema[table_id].columns.items():
+          if col_info.formula and mentions.search(col_info.formula) and table.has_column(col_id):
+            col = table.get_column(col_id)
+            if col.is_formula():
+              self.invalidate_column(col)
+
     # Update docmodel with references to the updated metadata tables.
     self.docmodel.update_tables()
 
